@@ -644,6 +644,11 @@ func (c *RaftCluster) processRegionHeartbeat(region *core.RegionInfo) error {
 			}
 			saveCache, needSync = true, true
 		}
+		if region.GetTerm() > origin.GetTerm() {
+			// Remember the term even if nothing else has changed: PreCheckPutRegion compares the reported term with
+			// the cached one, and the heartbeat of the leader of an older term must stay recognisable as stale.
+			saveCache = true
+		}
 		if !core.SortedPeersStatsEqual(region.GetDownPeers(), origin.GetDownPeers()) {
 			log.Debug("down-peers changed", zap.Uint64("region-id", region.GetID()))
 			saveCache, needSync = true, true
